@@ -899,8 +899,8 @@ def recipe_travels(recipe):
 
 def big_recipes(rng, wire, big=False):
     """one recipe of every family, sizes drawn from the catalogues (`wire`: only what json.loads can produce)"""
-    cat = SIZE_CAT_BIG if big else SIZE_CAT
-    n = lambda: rng.choice(cat)
+    # the very big sizes only now and then (thorough tier): a run holds all its cases in memory
+    n = lambda: rng.choice(SIZE_CAT_BIG[len(SIZE_CAT):]) if big and rng.random() < 0.01 else rng.choice(SIZE_CAT)
     mixed = lambda: rng.choice([0, 1, 2, 3])
     out = [['object', n(), mixed()], ['object', n(), 0], ['object-of-objects', n()],
            ['array', n(), mixed()], ['array', n(), 0], ['array-of-arrays', n()], ['array-of-pairs', n()],
